@@ -92,7 +92,7 @@ class C09(Prop):
             self.token(case.ctx, case, pop[2], pop[3])
 
     def call(self, case, w, order, k, tok, co):
-        return case.call("paginate_webentity_pages", case.t.paginate_webentity_pages, w, list(order), page_count=k,
+        return case.call("paginate_webentity_pages", case.t.paginate_webentity_pages, w, ob.args(order), page_count=k,
                          pagination_token=tok, crawled_only=co, _passthrough=(RecursionError,))
 
     def check_answer(self, case, r, k, label):
